@@ -379,6 +379,12 @@ var c04Ops = []string{".", "[]", "()", "{}", "*", "/", "%", "+", "-", "&", "=", 
 
 const c04LeafKinds = 13
 
+// contents of string operands (k/c04LeafKinds selects one): text that ends in an
+// escaped backslash, holds either quote character, an escape of each kind, or
+// spells operators, brackets, a comment opener and a regex, so that where the
+// literal ends decides how everything after it is parsed - in both quote styles
+var c04Strings = []string{"s", `C:\`, `a"b`, "it's", `\`, `x\"`, "'", `"`, `\\`, " and ", "/", "(", ")]", "~>", ":=", "/*", "a\nb\t", "\u00e9\\", "'\\", "\\'", `"\\`, "? :", "{", "}"}
+
 func c04Leaf(k int) jast.Node {
 	switch k % c04LeafKinds {
 	case 5:
@@ -406,7 +412,7 @@ func c04Leaf(k int) jast.Node {
 	case 2:
 		return &jast.Num{V: 1}
 	case 3:
-		return &jast.Str{V: "s"}
+		return &jast.Str{V: c04Strings[k/c04LeafKinds%len(c04Strings)]}
 	}
 	return &jast.Call{Fn: &jast.Var{Name: "f"}, Args: []jast.Node{&jast.Name{V: "x"}}}
 }
@@ -682,7 +688,7 @@ func init() {
 						o1 := c04Ops[j/k]
 						leaves := c04Leaves(o1, o2, "", int(i))
 						if _, isVar := leaves[posn].(*jast.Var); !isVar || (posn < 2 && []string{o1, o2}[posn] != ":=") {
-							leaves[posn] = c04Leaf(kind)
+							leaves[posn] = c04Leaf(kind + c04LeafKinds*int(i%97))
 						}
 						tree, ok := c04Tree([]string{o1, o2}, shape, leaves)
 						if !ok {
@@ -741,7 +747,7 @@ func c04Leaves(o1, o2, o3 string, salt int) []jast.Node {
 
 func c04Random(rr *prng.R, ops []string, d int) (jast.Node, bool) {
 	if len(ops) == 0 {
-		return c04Leaf(rr.Intn(c04LeafKinds)), true
+		return c04Leaf(rr.Intn(c04LeafKinds) + c04LeafKinds*rr.Intn(len(c04Strings))), true
 	}
 	k := rr.Intn(len(ops))
 	var l, r jast.Node
